@@ -268,7 +268,7 @@ class RuntimeState(utils.NiceRepr):
         """
         self._global_state = copy.deepcopy(DEFAULT_RUNTIME_STATE)
         if default_state:
-            self._global_state.update(default_state)
+            self._global_state.update(copy.deepcopy(default_state))
         self._inline_state = {}
 
     def to_dict(self):
